@@ -56,6 +56,9 @@ func init() {
 	register(&core.Rule{ID: "G2", Min: 8,
 		Doc: "Type guard of the emitted decoder programs: in every emitted template, the instruction that follows `is_null` (the start of a value; lspace ignored) is a type guard or a delegation - check_char_0 + dismatch_err, the checkIfSkip helper, check_char '[' / '\"' (byte slices), a strict match_char, the error-raising dismatch_err/unsupported, the dynamic dispatchers any/dyn/recurse, a primitive/unmarshaler opcode passed in by the caller, checkMarshaler, or a call that compiles the value (compileOps/compileOne/...) - never an instruction that consumes or skips the value unconditionally: otherwise a value of the wrong JSON type is accepted silently where encoding/json reports an UnmarshalTypeError.",
 		Run: func(c *core.Ctx) { runIRT(c, "G2") }})
+	register(&core.Rule{ID: "G5", Min: 1,
+		Doc: "Object keys are strings in the emitted encoder programs: no emitted template of encoder.compileMapBodyKey contains OP_number or a call of compileString (which emits OP_number for json.Number): a key of string kind is written with OP_str (quoted and escaped) whatever its named type, numeric kinds go through Program.Key (quotes around the scalar), TextMarshaler keys through the text-key helpers.",
+		Run: func(c *core.Ctx) { runIRT(c, "G5") }})
 	register(&core.Rule{ID: "G4", Min: 1,
 		Doc: "Short JSON arrays zero the rest of a fixed-size Go array: in every emitted template of jitdec.compileArray each `check_char ']'` branch (the array ended after 0..N elements) is pinned to the array_clear / array_clear_p instruction, which zeroes the elements that were not assigned, as encoding/json does; a close branch that lands past the clear keeps stale elements of a reused destination.",
 		Run: func(c *core.Ctx) { runIRT(c, "G4") }})
@@ -793,6 +796,14 @@ func (s *irState) finish(endPos token.Pos) {
 	s.grammar()
 	s.typeGuard()
 	s.arrayClear()
+	if s.d.name == "encoder" && s.fname == "compileMapBodyKey" {
+		for _, in := range s.instrs {
+			if in.op == "OP_number" || in.op == "call:compileString" {
+				s.viol = append(s.viol, irViolation{"G5", "quoted-key", in.pos,
+					"the key program of a map emits `" + strings.TrimPrefix(in.op, "call:") + "` (at " + s.p.Pos(in.pos) + "): a json.Number key is then written as a bare number (`{1:2}`), which is not JSON and differs from the sorted path and from encoding/json"})
+			}
+		}
+	}
 }
 
 // arrayClear (G4): every early close of a fixed-size array reaches the clear of the rest.
@@ -1267,6 +1278,9 @@ func runIRT(c *core.Ctx, rule string) {
 			if (rule == "G2" || rule == "G1") && d.name != "jitdec" {
 				continue
 			}
+			if rule == "G5" && (d.name != "encoder" || name != "compileMapBodyKey") {
+				continue
+			}
 			if rule == "G4" && (d.name != "jitdec" || name != "compileArray") {
 				continue
 			}
@@ -1306,6 +1320,8 @@ func runIRT(c *core.Ctx, rule string) {
 					c.OK(fn+"/tag", info.fd.Pos(), "save preceded by tag on every path")
 				case "G1":
 					c.OK(fn+"/separators", info.fd.Pos(), "%d feasible paths: no ',' is followed by an accepted closer", an.paths[name])
+				case "G5":
+					c.OK(fn+"/quoted-key", info.fd.Pos(), "%d feasible paths: string-kind keys use OP_str", an.paths[name])
 				case "G4":
 					if name != "compileArray" {
 						continue
